@@ -18,7 +18,8 @@ ASSUMPTIONS = [
     "bounded instances only: targets of at most ~4 units per object; draw menus are finite",
     "scipy norm.rvs with scale 0 returns loc exactly (checked at run time: such objects make no generator request)",
 ]
-MAX_EXEC = {"quick": 6000, "thorough": 150000}
+MAX_EXEC = {"quick": 6000, "thorough": 60000}
+MAX_SECONDS = {"quick": 150, "thorough": 900}
 
 
 def cases(tier, seed, extra=()):
@@ -35,7 +36,7 @@ def cases(tier, seed, extra=()):
 def evaluate(pid, want, data, well_posed=None):
     res = new_result()
     inst = Instance.from_json(data["inst"])
-    stats, viols, dist = run_instance(inst, max_exec=MAX_EXEC[data.get("tier", "quick")], want=want, well_posed=well_posed, reuse=bool(data.get("reuse")))
+    stats, viols, dist = run_instance(inst, max_exec=MAX_EXEC[data.get("tier", "quick")], want=want, well_posed=well_posed, reuse=bool(data.get("reuse")), max_seconds=MAX_SECONDS[data.get("tier", "quick")])
     for key, (what, script) in viols.items():
         if key.startswith(pid + "|"):
             viol(res, key, what, {"script": script, "text": inst.text})
